@@ -4,10 +4,16 @@
    string, every UTF-8 encoded Unicode string is one); a weight is an opaque
    token, [fmt] / [parse] stand for Rust's f64 Display / FromStr (oracles,
    sampled by the harness; the hypotheses are satisfiable:
-   GraphMLRoundTrip.roundtrip_hyps_satisfiable). *)
+   GraphMLRoundTrip.roundtrip_hyps_satisfiable).
+   Round 2: the well-formedness hypothesis of the round trip (distinct names, admissible stored
+   edge list) is PROVED for every state satisfying the coherence invariant WF, hence for every
+   graph reachable through the public mutation API (C14_WF_is_wellformed,
+   C14_reachable_is_wellformed), and the round trip is stated for every reachable graph
+   (C14_roundtrip_reachable); the per-case evaluation of wf_roundtrip_b (observation 31) is kept
+   as a tie between model and code. *)
 From Coq Require Import List NArith ZArith Bool Permutation.
 From GV Require Import Base.Outcome Base.AMap Model.GState Model.Creation Model.Query Model.XmlEscape Model.GraphML.
-From GV Require Import Spec.GraphMLDef Proofs.EscapeOk Proofs.GraphMLOk Proofs.CreationNoPanic Proofs.CreationNodes Proofs.CreationRebuild Proofs.GraphMLRoundTrip.
+From GV Require Import Spec.History Spec.GraphMLDef Proofs.WFDefs Proofs.EscapeOk Proofs.GraphMLOk Proofs.CreationNoPanic Proofs.CreationNodes Proofs.CreationRebuild Proofs.GraphMLRoundTrip Proofs.GraphMLStateOk.
 Import ListNotations.
 Open Scope N_scope.
 
@@ -117,3 +123,42 @@ Theorem C14_rebuild :
   exists g, new_from_nodes_and_edges teqb tltb ns es s = Ok g /\
             nodes_vec g = ns /\ sp g = s /\ Permutation (get_all_edges g) es.
 Proof. exact (@new_from_rebuild). Qed.
+
+(* ---------------------------------------------------------------------------------------------
+   Round 2: the writer's well-formedness predicate is a consequence of the invariant of C01.
+   --------------------------------------------------------------------------------------------- *)
+
+(* any name type: a coherent state has distinct node names and its stored edge list, in its stored
+   order, is admissible for its specs (endpoints are nodes, no forbidden self-loop, canonical
+   orientation when undirected, no repeated pair unless multi-edges are allowed) *)
+Theorem C14_WF_is_wellformed :
+  forall (T A : Type) (teqb tltb : T -> T -> bool),
+  (forall x y, teqb x y = true <-> x = y) ->
+  (forall x y, tltb x y = false -> tltb y x = false -> x = y) ->
+  forall g : gstate T A, WF teqb tltb g ->
+  NoDup (map nname (get_all_nodes g)) /\
+  all_admissible tltb (sp g) (map nname (get_all_nodes g)) [] (get_all_edges g).
+Proof. exact (@WF_admissible). Qed.
+
+(* every Graph reachable by any history of add_node(s) / add_edge(s) satisfies it *)
+Theorem C14_reachable_is_wellformed : forall (s : specs) (g : ggraph),
+  reachable bytes_eqb bytes_ltb s g ->
+  NoDup (map nname (get_all_nodes g)) /\
+  all_admissible bytes_ltb (sp g) (map nname (get_all_nodes g)) [] (get_all_edges g).
+Proof. intros s g Hr. exact (wf_roundtrip_of_WF g (breachable_WF s g Hr)). Qed.
+
+(* THE ROUND TRIP, for every reachable graph: reading back what was written, with the graph's specs,
+   succeeds and yields a reachable (hence valid) graph with the same names in the same order, the
+   same specs and the same multiset of edges with identical weight tokens *)
+Theorem C14_roundtrip_reachable :
+  forall (fmt : Z -> bytes) (parse : bytes -> option weight),
+  (forall z, escape (fmt z) = fmt z) ->
+  (forall z, parse (fmt z) = Some (Some z)) ->
+  forall (s : specs) (g : ggraph),
+  reachable bytes_eqb bytes_ltb s g ->
+  exists g', read_events parse (write_events fmt g) s = Ok g' /\
+             reachable bytes_eqb bytes_ltb s g' /\
+             map nname (get_all_nodes g') = map nname (get_all_nodes g) /\
+             sp g' = s /\
+             Permutation (get_all_edges g') (map bare_edge (get_all_edges g)).
+Proof. exact roundtrip_reachable. Qed.
